@@ -577,17 +577,26 @@ class DriverEngine(Engine):
     known_sigs: frozenset[str] = frozenset()
     corpus: Any = None
     full_ctx: Any = None
+    aux_failed = False
 
     def prepare(self, tier: str, seed: int) -> None:
         from simverif.engines import streamsim
         from simverif.kernel import load_known_findings
 
         self.known_sigs = frozenset(load_known_findings(self.prop))
-        if DriverEngine.corpus is None:
+        if DriverEngine.corpus is None and not DriverEngine.aux_failed:
             import os
 
-            DriverEngine.corpus = streamsim.build_corpus(min(16, os.cpu_count() or 1))
-            _, DriverEngine.full_ctx = streamsim._contexts()
+            # auxiliary workload (real canonicalization on corpus modules): optional, see irsim
+            try:
+                _, DriverEngine.full_ctx = streamsim._contexts()
+                DriverEngine.corpus = streamsim.build_corpus(min(16, os.cpu_count() or 1))
+            except BaseException as e:  # noqa: BLE001
+                if isinstance(e, KeyboardInterrupt):
+                    raise
+                DriverEngine.corpus = None
+                DriverEngine.aux_failed = True
+                print(f"[C11] note: corpus / dialect loading failed ({type(e).__name__}); the real-canonicalization workload is skipped in this run")
             import gc
 
             gc.collect()
@@ -794,7 +803,7 @@ class DriverEngine(Engine):
         st = res.stats
         tr: list[str] | None = [] if trace else None
 
-        if cfg.flag(1, 6):
+        if cfg.flag(1, 6) and DriverEngine.corpus is not None:
             self._run_real(cfg, sch, res, tr)
             return res
         n_ops = 2 + cfg.choice(40)
